@@ -309,3 +309,49 @@ Proof.
     apply (andjoin_nobrace _ Hgs).
   - apply re_split_nonnil.
 Qed.
+
+(* ---- the general (semantic) domain of one name in a list: its formatted text is a list of name words, and the name
+   parser reads it back.  name_ok (comma forms) and the no-first-name form (Proofs/WritersName0.v) are instances. *)
+Definition name_okx (p : person) : Prop :=
+  (exists ws, format_name p = wjoin ws /\ Forall gw ws /\ ws <> []) /\
+  person_of_string (format_name p) = Ok (p, false).
+
+Lemma name_ok_x p : name_ok p -> name_okx p.
+Proof.
+  intros H. split.
+  - exists (name_words p). destruct (name_words_gw p H) as [G N]. destruct H as [E _].
+    split; [now apply format_name_words|]. split; assumption.
+  - destruct H as [E _]. now apply bibtex_name_roundtrip_pf.
+Qed.
+
+Lemma okx_words ps : Forall name_okx ps ->
+  exists wss, map format_name ps = map wjoin wss /\ Forall (Forall gw) wss /\ Forall (fun n => n <> []) wss.
+Proof.
+  induction 1 as [|p ps [(ws & E & G & N) _] _ (wss & E2 & G2 & N2)]; [exists []; auto|].
+  exists (ws :: wss). cbn [map]. rewrite E, E2. auto.
+Qed.
+
+Lemma split_name_list_namesx ps : ps <> [] -> Forall name_okx ps ->
+  split_name_list (names_text ps) = Ok (map format_name ps).
+Proof.
+  intros Hne H. destruct (okx_words ps H) as (wss & E & G & N).
+  destruct wss as [|ws wss]; [destruct ps; [congruence|discriminate]|].
+  inversion G as [|? ? Hg Hgs]; subst. inversion N as [|? ? Hn Hnes]; subst.
+  assert (T : names_text ps = wjoin ws ++ andjoin wss).
+  { unfold names_text. rewrite E. cbn [map]. rewrite join_flat. f_equal.
+    clear. induction wss as [|w r IH]; [reflexivity|]. cbn [map flat_map andjoin]. fold (andjoin r).
+    rewrite IH, s_and_eq. now rewrite <- app_assoc. }
+  rewrite T, E. unfold split_name_list, split_tex_string_gen.
+  rewrite split_loop_nobrace.
+  - rewrite re_split_names; auto.
+    + cbn [map]. f_equal. f_equal; [now apply wjoin_strip|].
+      rewrite map_map. clear -Hgs Hnes. induction wss as [|w r IH]; [reflexivity|].
+      inversion Hgs; inversion Hnes; subst. cbn [map]. rewrite IH by assumption. f_equal. now apply wjoin_strip.
+    + eapply Forall_impl; [|exact Hg]. now intros w [Hw _].
+    + eapply Forall_impl; [|exact Hgs]. intros n Hn'. eapply Forall_impl; [|exact Hn']. now intros w [Hw _].
+  - intros E0. apply app_eq_nil in E0 as [E0 _]. destruct ws as [|w ws']; [congruence|].
+    rewrite wjoin_cons in E0. apply app_eq_nil in E0 as [E0 _]. inversion Hg as [|? ? [[[Hw _] _] _] _]; subst. congruence.
+  - unfold nobrace. rewrite forallb_app'. fold (nobrace (wjoin ws)). rewrite (wjoin_nobrace _ Hg).
+    apply (andjoin_nobrace _ Hgs).
+  - apply re_split_nonnil.
+Qed.
